@@ -8,7 +8,31 @@ NP = "menelaus.partitioners.NNSpacePartitioner:NNSpacePartitioner"
 
 def register(R):
     R.klass(KP, fields={})
-    R.klass(NP, fields={})
+    R.klass(NP, fields={"k": "Int", "D": "Opt[Nd2c]", "v1": "Opt[Vec]", "v2": "Opt[Vec]", "nnps_matrix": "Opt[Opaque[AnyVal]]",
+                        "adjacency_matrix": "Opt[Opaque[AnyVal]]"}, ghost={"inv": "List[Int]"})
+    # build (C10): D holds every distinct point of the pooled samples exactly once, and the membership vectors mark exactly
+    # the points that occur in the respective sample - whatever the sizes of the two samples and however often a point
+    # occurs.  The part after the membership vectors (nearest neighbours, NNPS matrix) is abstracted: not verified here.
+    ROW_EQ = "forall(j, 0, mcols(%s), cell(%s, %s, j) == cell(self.D, %s, j))"
+    IN1 = "exists(i, 0, mrows(sample1), %s)" % (ROW_EQ % ("sample1", "sample1", "i", "u"))
+    IN2 = "exists(i, 0, mrows(sample2), %s)" % (ROW_EQ % ("sample2", "sample2", "i", "u"))
+    R.contract(NP + ".build", tags=("C10",), params={"sample1": "Nd2c", "sample2": "Nd2c"},
+               requires=["mcols(sample1) == mcols(sample2)", "mcols(sample1) >= 1", "mrows(sample1) >= 1 and mrows(sample2) >= 1"],
+               ensures=["self.D is not None and self.v1 is not None and self.v2 is not None",
+                        "len(self.v1) == mrows(self.D) and len(self.v2) == mrows(self.D) and mcols(self.D) == mcols(sample1)",
+                        # every point of either sample is a row of D (ghost inv: the row of D that holds the i-th pooled point)
+                        "len(self.ghost.inv) == mrows(sample1) + mrows(sample2)",
+                        "forall(i, 0, mrows(sample1), 0 <= self.ghost.inv[i] and self.ghost.inv[i] < mrows(self.D) and %s)"
+                        % (ROW_EQ % ("sample1", "sample1", "i", "self.ghost.inv[i]")),
+                        "forall(i, 0, mrows(sample2), 0 <= self.ghost.inv[mrows(sample1) + i] and self.ghost.inv[mrows(sample1) + i] < mrows(self.D) and %s)"
+                        % (ROW_EQ % ("sample2", "sample2", "i", "self.ghost.inv[mrows(sample1) + i]")),
+                        # the membership vectors are 0/1 marks of exactly the points of the respective sample
+                        "forall(u, 0, mrows(self.D), self.v1[u] == (1 if %s else 0))" % IN1,
+                        "forall(u, 0, mrows(self.D), self.v2[u] == (1 if %s else 0))" % IN2],
+               ghost_update=["self.ghost.inv = inverted_indices"],
+               calls={"numpy.matmul": "any"},
+               abstract_blocks=[{"from": "nn", "to": "m", "to_last": True, "havoc_fields": {"adjacency_matrix": "Opt[Opaque[AnyVal]]"}}],
+               modifies=["D", "v1", "v2", "nnps_matrix", "adjacency_matrix"], check_invariant=False, assume_invariant=False)
     R.specfn('''
 @recursive("Array[Real]", "Array[Real]", "Int", "Real")
 def nnps_sum(a, b, k):
